@@ -13,7 +13,7 @@ From Coq Require Import List Arith ZArith.
 Import ListNotations.
 From YP Require Import Base.Str Term.Term Term.Fast Unify.Unify Unify.UnifyGen Lang.Ast Comp.IR Comp.CompileClause Sem.Machine Sem.RunSem
   Engine.GenMachine Engine.RunGen Engine.BoundedHeap Engine.Bounded Engine.BoundedQuery Engine.RunBoundedM Engine.BoundedMachine
-  Sem.ExecMono Sem.Native Engine.NativeMono.
+  Sem.ExecMono Sem.Native Sem.NativeExc Engine.NativeMono Engine.BoundedNative.
 
 (* "for a deeper or infinite search it returns a prefix of that sequence": the sequences at all depths
    are prefixes of each other, and a search that ends within depth n is the same at every deeper m *)
@@ -45,11 +45,41 @@ Theorem C17_engine_with_python_predicates_prefix_monotone : forall (w : world) n
 Proof. exact nquery_depth_mono. Qed.
 Print Assumptions C17_engine_with_python_predicates_prefix_monotone.
 
+(* evaluate_bounded over such an engine (Sem/NativeExc.nqueryE: the exception OBJECT that ends the enumeration is known):
+   world_ans = the resolved query variables at each answer + ended normally / by an exception; world_gexc = the Python class
+   of that exception (RecursionError for the engine's depth error, another class for the object of a Python predicate) *)
+Theorem C17_engine_answers_prefix_monotone : forall (w : worldE) name args nq n m, n <= m ->
+  res_le (world_ans w name args nq n) (world_ans w name args nq m).
+Proof. exact world_ans_mono. Qed.
+Print Assumptions C17_engine_answers_prefix_monotone.
+
+Theorem C17_engine_result_is_prefix : forall (w : worldE) name args nq (B : Type)
+  (proj : nat -> list term -> nat -> pout B * nat) budget cur st limit (res_ : list B),
+  gs st = Susp 0 ->
+  fst (evaluate_bounded (world_ans w name args nq) (world_gexc w name args nq) proj budget cur true st limit) = Return res_ ->
+  running cur st -> forall m, budget limit cur <= m ->
+  exists l0, prefix l0 (fst (world_ans w name args nq m)) /\ projected proj 0 l0 res_.
+Proof. exact world_result_is_prefix. Qed.
+Print Assumptions C17_engine_result_is_prefix.
+
+(* what escapes from evaluate_bounded over such an engine is never the depth error: a ValueError for a limit below 1, an
+   exception of the projection function, or the exception object x of a Python predicate (or of a goal that is not callable)
+   that ended the enumeration - limit restored and generator closed by C17_rlimit_restored / ..._closed_on_every_branch *)
+Theorem C17_engine_no_depth_error_escapes : forall (w : worldE) name args nq (B : Type)
+  (proj : nat -> list term -> nat -> pout B * nat) budget cur st limit e,
+  running cur st ->
+  fst (evaluate_bounded (world_ans w name args nq) (world_gexc w name args nq) proj budget cur true st limit) = Propagate e ->
+  caught e = false /\
+  ((limit < 1 /\ e = value_error) \/ (exists k a r0 r1, proj k a r0 = (PRaise e, r1)) \/
+   (exists x, snd (nqueryE (budget limit cur) w name args (st0 nq)) = Some x /\ e = exc_of x /\ x <> XDepth /\ x <> XUnify)).
+Proof. exact world_no_depth_error_escapes. Qed.
+Print Assumptions C17_engine_no_depth_error_escapes.
+
 (* the two result theorems below, instantiated with the machine's queries: no hypothesis on the query is left *)
 Theorem C17_machine_result_is_prefix : forall (ir : ir_program) (name : str) (args : list term) (nq : nat) (B : Type)
   (proj : nat -> list term -> nat -> pout B * nat) budget cur st limit (res_ : list B),
   gs st = Susp 0 ->
-  fst (evaluate_bounded (machine_ans ir name args nq) proj budget cur true st limit) = Return res_ -> running cur st ->
+  fst (evaluate_bounded (machine_ans ir name args nq) (fun _ => ERuntime) proj budget cur true st limit) = Return res_ -> running cur st ->
   forall m, budget limit cur <= m ->
   exists l0, prefix l0 (fst (machine_ans ir name args nq m)) /\ projected proj 0 l0 res_.
 Proof. exact machine_result_is_prefix. Qed.
@@ -60,7 +90,7 @@ Theorem C17_machine_complete_when_shallow : forall (ir : ir_program) (name : str
   gs st = Susp 0 -> running cur st -> setrl cur limit = inr limit ->
   snd (machine_ans ir name args nq (budget limit cur)) = Norm ->
   (forall k a r, exists b, proj k a r = (PVal b, r)) ->
-  exists res_, fst (evaluate_bounded (machine_ans ir name args nq) proj budget cur true st limit) = Return res_ /\
+  exists res_, fst (evaluate_bounded (machine_ans ir name args nq) (fun _ => ERuntime) proj budget cur true st limit) = Return res_ /\
     forall m, budget limit cur <= m ->
       projected proj 0 (fst (machine_ans ir name args nq m)) res_ /\ snd (machine_ans ir name args nq m) = Norm.
 Proof. exact machine_complete_when_shallow. Qed.
@@ -70,9 +100,9 @@ Print Assumptions C17_machine_complete_when_shallow.
    depth at least the one the limit corresponds to *)
 Theorem C17_result_is_prefix : forall (A B : Type) (ans : nat -> res A),
   (forall n m, n <= m -> res_le (ans n) (ans m)) ->
-  forall proj budget cur has_close st limit (res_ : list B),
+  forall gexc proj budget cur has_close st limit (res_ : list B),
   gs st = Susp 0 ->
-  fst (evaluate_bounded ans proj budget cur has_close st limit) = Return res_ -> running cur st ->
+  fst (evaluate_bounded ans gexc proj budget cur has_close st limit) = Return res_ -> running cur st ->
   forall m, budget limit cur <= m -> exists l0, prefix l0 (fst (ans m)) /\ projected proj 0 l0 res_.
 Proof. exact result_is_prefix. Qed.
 Print Assumptions C17_result_is_prefix.
@@ -81,39 +111,41 @@ Print Assumptions C17_result_is_prefix.
    every answer in order" *)
 Theorem C17_complete_when_shallow : forall (A B : Type) (ans : nat -> res A),
   (forall n m, n <= m -> res_le (ans n) (ans m)) ->
-  forall (proj : nat -> A -> nat -> pout B * nat) budget cur has_close st limit,
+  forall gexc (proj : nat -> A -> nat -> pout B * nat) budget cur has_close st limit,
   gs st = Susp 0 -> running cur st -> setrl cur limit = inr limit ->
   snd (ans (budget limit cur)) = Norm ->
   (forall k a r, exists b, proj k a r = (PVal b, r)) ->
-  exists res_, fst (evaluate_bounded ans proj budget cur has_close st limit) = Return res_ /\
+  exists res_, fst (evaluate_bounded ans gexc proj budget cur has_close st limit) = Return res_ /\
     forall m, budget limit cur <= m -> projected proj 0 (fst (ans m)) res_ /\ snd (ans m) = Norm.
 Proof. exact complete_when_shallow. Qed.
 Print Assumptions C17_complete_when_shallow.
 
 (* "never lets a recursion-depth error escape": what propagates is never a RuntimeError (RecursionError)
-   or StopIteration; it is the ValueError for a limit below 1 or an exception of another class that the
-   projection function raised *)
-Theorem C17_no_depth_error_escapes : forall (A B : Type) (ans : nat -> res A)
+   or StopIteration; it is the ValueError for a limit below 1, an exception of another class that the
+   projection function raised, or the exception gexc d of another class that ended the enumeration itself
+   (a registered Python predicate raised it; gexc d = RecursionError for a search cut short by the limit) *)
+Theorem C17_no_depth_error_escapes : forall (A B : Type) (ans : nat -> res A) (gexc : nat -> exc)
   (proj : nat -> A -> nat -> pout B * nat) budget cur has_close st limit e,
   running cur st ->
-  fst (evaluate_bounded ans proj budget cur has_close st limit) = Propagate e ->
+  fst (evaluate_bounded ans gexc proj budget cur has_close st limit) = Propagate e ->
   caught e = false /\
-  ((limit < 1 /\ e = value_error) \/ (exists k a r0 r1, proj k a r0 = (PRaise e, r1))).
+  ((limit < 1 /\ e = value_error) \/ (exists k a r0 r1, proj k a r0 = (PRaise e, r1)) \/
+   (e = gexc (budget limit cur) /\ snd (ans (budget limit cur)) = Err)).
 Proof. exact no_depth_error_escapes. Qed.
 Print Assumptions C17_no_depth_error_escapes.
 
 (* "in every case - including an exception raised by the projection function - the interpreter's
    recursion limit is afterwards what it was before the call": no hypothesis on ans, proj, limit *)
-Theorem C17_rlimit_restored : forall (A B : Type) (ans : nat -> res A)
+Theorem C17_rlimit_restored : forall (A B : Type) (ans : nat -> res A) (gexc : nat -> exc)
   (proj : nat -> A -> nat -> pout B * nat) budget cur has_close st limit,
-  running cur st -> rl (snd (evaluate_bounded ans proj budget cur has_close st limit)) = rl st.
+  running cur st -> rl (snd (evaluate_bounded ans gexc proj budget cur has_close st limit)) = rl st.
 Proof. exact rlimit_restored. Qed.
 Print Assumptions C17_rlimit_restored.
 
 (* the query object is closed on every branch ... *)
-Theorem C17_generator_closed_on_every_branch : forall (A B : Type) (ans : nat -> res A)
+Theorem C17_generator_closed_on_every_branch : forall (A B : Type) (ans : nat -> res A) (gexc : nat -> exc)
   (proj : nat -> A -> nat -> pout B * nat) budget cur st limit,
-  running cur st -> gs (snd (evaluate_bounded ans proj budget cur true st limit)) = Done.
+  running cur st -> gs (snd (evaluate_bounded ans gexc proj budget cur true st limit)) = Done.
 Proof. intros. apply generator_closed_on_every_branch; auto. Qed.
 Print Assumptions C17_generator_closed_on_every_branch.
 
@@ -128,12 +160,12 @@ Proof. exact eb_heap_restored. Qed.
 Print Assumptions C17_vars_unbound_after.
 
 (* the result is exactly what was collected: the except clauses drop nothing *)
-Theorem C17_result_collected_so_far : forall (A B : Type) (ans : nat -> res A)
+Theorem C17_result_collected_so_far : forall (A B : Type) (ans : nat -> res A) (gexc : nat -> exc)
   (proj : nat -> A -> nat -> pout B * nat) budget cur has_close st limit k0,
   gs st = Susp k0 -> running cur st -> forall r1, setrl cur limit = inr r1 ->
   forall e acc r2 g2,
-  loop proj (skipn k0 (fst (ans (budget limit cur)))) (snd (ans (budget limit cur))) k0 r1 [] = (e, acc, r2, g2) ->
-  fst (evaluate_bounded ans proj budget cur has_close st limit) = handle e acc.
+  loop proj (gexc (budget limit cur)) (skipn k0 (fst (ans (budget limit cur)))) (snd (ans (budget limit cur))) k0 r1 [] = (e, acc, r2, g2) ->
+  fst (evaluate_bounded ans gexc proj budget cur has_close st limit) = handle e acc.
 Proof. exact result_collected_so_far. Qed.
 Print Assumptions C17_result_collected_so_far.
 
@@ -156,16 +188,16 @@ Example C17_nonvacuous :
   let n := fun t => TFun (d "nat"%string) [t] in
   sld_ans nat_prog 50 nat_query 3 = ([n z; n (s z); n (s (s z))], Err) /\
   (let proj := fun (k : nat) (a : term) (r : nat) => (PVal a, r) in
-   evaluate_bounded (sld_ans nat_prog 50 nat_query) proj (fun l c => (l - c) / 10) 20 true
+   evaluate_bounded (sld_ans nat_prog 50 nat_query) (fun _ => ERuntime) proj (fun l c => (l - c) / 10) 20 true
                     {| rl := 1000; gs := Susp 0 |} 50
    = (Return [n z; n (s z); n (s (s z))], {| rl := 1000; gs := Done |})) /\
   (let proj := fun (k : nat) (a : term) (r : nat) => if Nat.eqb k 1 then (PRaise (EOther 0), r) else (PVal a, r) in
-   evaluate_bounded (sld_ans nat_prog 50 nat_query) proj (fun l c => (l - c) / 10) 20 true
+   evaluate_bounded (sld_ans nat_prog 50 nat_query) (fun _ => ERuntime) proj (fun l c => (l - c) / 10) 20 true
                     {| rl := 1000; gs := Susp 0 |} 50
    = (Propagate (EOther 0), {| rl := 1000; gs := Done |})) /\
   (* a limit that does not fit above the current depth: RecursionError from setrecursionlimit, caught *)
   (let proj := fun (k : nat) (a : term) (r : nat) => (PVal a, r) in
-   evaluate_bounded (sld_ans nat_prog 50 nat_query) proj (fun l c => (l - c) / 10) 20 true
+   evaluate_bounded (sld_ans nat_prog 50 nat_query) (fun _ => ERuntime) proj (fun l c => (l - c) / 10) 20 true
                     {| rl := 1000; gs := Susp 0 |} 15
    = (Return [], {| rl := 1000; gs := Done |})).
 Proof. vm_compute. repeat split. Qed.
@@ -189,7 +221,7 @@ Example C17_machine_nonvacuous :
       machine_ans ir (d "first"%string) [TVar 0] 1 2 = ([], Err) /\
       (* nat(X), X = s(z): one answer, then the search goes on for ever *)
       machine_ans ir (d "two"%string) [TVar 0] 1 6 = ([[s z]], Err) /\
-      evaluate_bounded (machine_ans ir (d "two"%string) [TVar 0] 1) (fun k a r => (PVal a, r)) (fun l c => (l - c) / 2) 20 true
+      evaluate_bounded (machine_ans ir (d "two"%string) [TVar 0] 1) (fun _ => ERuntime) (fun k a r => (PVal a, r)) (fun l c => (l - c) / 2) 20 true
                        {| rl := 1000; gs := Susp 0 |} 32 = (Return [[s z]], {| rl := 1000; gs := Done |})
   | None => False
   end.
